@@ -6,7 +6,9 @@ swaps, shift direction, & <-> |, statement deletion), applies each to a scratch 
 /verif, removed at the end), keeps those that still COMPILE AND PASS THE 192 UNIT TESTS, and runs the quick checks that
 are mapped to the mutated file.  Survivors (pass the tests and all mapped checks) are listed for inspection: they are
 either equivalent mutants or gaps.  Results: seeded/MUTATION.json (appended), one line per mutant on stdout.
-No mutant is ever applied to /repo itself."""
+No mutant is ever applied to /repo itself.
+Environment: MUTATE_ONLY=<regex> restricts the files; MUTATE_IDENT=1 uses the copy/paste operators only (sibling
+enumerator, other 16/32/64-bit width)."""
 import json, os, random, re, subprocess, sys, time
 
 V = '/verif'
